@@ -68,17 +68,17 @@ pub struct TimeDelta { pub months: i32, pub inner: Duration }
             let ghost p0 = iter.pos();
 //@loop 1
             invariant
-                iter.src() == *duration, duration.wf(), 0 <= iter.pos() <= duration.chars().len(),
+                iter.src() == *duration, duration.wf(), 0 <= iter.pos() <= iter.count(),
                 0 <= start <= duration.blen(), duration.boundary(start as int),
-                iter.pos() < duration.chars().len() ==> start <= duration.offs()[iter.pos()],
-            decreases duration.chars().len() - iter.pos()
+                iter.pos() < iter.count() ==> start <= iter.off(iter.pos()),
+            decreases iter.count() - iter.pos()
 //@loop 2
                     invariant
-                        iter.src() == *duration, duration.wf(), 0 <= iter.pos() <= duration.chars().len(),
+                        iter.src() == *duration, duration.wf(), 0 <= iter.pos() <= iter.count(),
                         0 <= start <= duration.blen(), duration.boundary(start as int),
-                        iter.pos() < duration.chars().len() ==> start <= duration.offs()[iter.pos()],
+                        iter.pos() < iter.count() ==> start <= iter.off(iter.pos()),
                         iter.pos() > p0,
-                    decreases duration.chars().len() - iter.pos()
+                    decreases iter.count() - iter.pos()
 //@end
 
 } // verus!
